@@ -133,13 +133,21 @@ func NewWSTransport(ctx context.Context, opts WSTransportOptions) *WSTransport {
 // existing connection when one is available for the same endpoint, subprotocol,
 // headers, and init payload, dialing a new one otherwise.
 func (t *WSTransport) Subscribe(ctx context.Context, req *common.Request, opts common.Options, handler common.Handler) (func(), error) {
-	conn, err := t.getOrDial(ctx, opts)
-	if err != nil {
-		return nil, err
-	}
+	// A pooled connection can start closing between getOrDial and subscribe (its last
+	// subscription just ended). That is no failure of this subscriber: get another one.
+	for attempt := 0; ; attempt++ {
+		conn, err := t.getOrDial(ctx, opts)
+		if err != nil {
+			return nil, err
+		}
 
-	id := xid.New().String()
-	return conn.subscribe(ctx, id, req, handler)
+		id := xid.New().String()
+		cancel, err := conn.subscribe(ctx, id, req, handler)
+		if err != nil && errors.Is(err, common.ErrConnectionClosed) && attempt < 3 {
+			continue
+		}
+		return cancel, err
+	}
 }
 
 // pingLoop sends periodic pings to all active connections and shuts down
@@ -300,8 +308,8 @@ func (t *WSTransport) dial(ctx context.Context, key uint64, opts common.Options)
 		logger:       t.opts.Logger,
 		writeTimeout: t.opts.WriteTimeout,
 		idleTimeout:  t.opts.IdleTimeout,
-		onEmpty:      func() { t.removeConn(key) },
 	})
+	conn.onEmpty = func() { t.removeConn(key, conn) }
 
 	go conn.readLoop()
 
@@ -331,10 +339,14 @@ func (t *WSTransport) negotiateSubprotocol(requested common.WSSubprotocol, accep
 	}
 }
 
-func (t *WSTransport) removeConn(key uint64) {
+// removeConn removes conn from the pool. A connection that shuts down late must not
+// remove the connection that has replaced it under the same key in the meantime.
+func (t *WSTransport) removeConn(key uint64, conn *wsConnection) {
 	t.mu.Lock()
 	defer t.mu.Unlock()
-	delete(t.conns, key)
+	if t.conns[key] == conn {
+		delete(t.conns, key)
+	}
 }
 
 // connKey computes a hash key for connection pooling.
